@@ -130,6 +130,15 @@ impl<T> RawTable<T> {
     /// current elements, as well as some additional elements due to incremental resizing.
     #[cfg_attr(feature = "inline-more", inline)]
     pub(crate) fn shrink_to(&mut self, min_size: usize, hasher: impl Fn(&T) -> u64) {
+        // If the old table has already been emptied (e.g., through `retain`), there is nothing
+        // left to move, so let go of it now. Otherwise we could shrink the main table down to
+        // exactly its length while still (nominally) being in the middle of a resize.
+        if let Some(ref lo) = self.leftovers {
+            if lo.table.len() == 0 {
+                let _ = self.leftovers.take();
+            }
+        }
+
         // Calculate the minimal number of elements that we need to reserve
         // space for.
         let mut need = self.table.len();
